@@ -461,6 +461,9 @@ fn op_exec(t: &TestDb, var: Var, op: Op, step: usize) -> Vec<Res> {
                 Ok(Ok(stmt)) => [(a, 'p'), (b, 'q')]
                     .iter()
                     .map(|(k, tag)| {
+                        if vcore::catch(|| stmt.cached_insert_plan().is_some()).unwrap_or(false) {
+                            CACHED_PLAN_EXECS.with(|c| c.set(c.get() + 1));
+                        }
                         let r = vcore::catch(|| {
                             stmt.bind(OwnedValue::Int(*k as i64))
                                 .bind(OwnedValue::Int(*k as i64))
@@ -477,6 +480,11 @@ fn op_exec(t: &TestDb, var: Var, op: Op, step: usize) -> Vec<Res> {
             }
         }
     }
+}
+
+thread_local! {
+    /// executions of a prepared INSERT that found a cached insert plan (the `insert_cached` path, where wal_autoflush matters)
+    static CACHED_PLAN_EXECS: std::cell::Cell<u64> = std::cell::Cell::new(0);
 }
 
 fn apply_cfg(t: &TestDb, cfg: Cfg) -> Result<(), String> {
@@ -1142,7 +1150,7 @@ fn large_schema(ctx: &Ctx, rep: &mut Reporter, cfg: Cfg, order: &'static str) {
     rep.add_traces_validated(1);
     rep.count("large_schema_scenarios", 1);
     rep.count("large_schema_statements", stmts);
-    rep.count("large_schema_max_open_data_files", max_open as u64);
+    rep.outcome(&format!("large-schema/max-open-data-files={max_open}"));
     // 140 data files are touched round-robin but at most 64 stay open: every further touch of a closed file evicts one
     if max_open_before > 0 && max_open_before <= 64 {
         rep.count("large_schema_runs_with_lru_evictions", 1);
@@ -1183,7 +1191,7 @@ impl Check for C42 {
     }
 
     fn run(&self, ctx: &Ctx, rep: &mut Reporter) {
-        for c in ["baseline_histories", "baseline_index_plans_for_a_lookup", "runs_with_wal_frames_at_end", "large_schema_scenarios", "large_schema_runs_with_lru_evictions", "large_schema_reopens"] {
+        for c in ["baseline_histories", "baseline_index_plans_for_a_lookup", "prepared_inserts_through_cached_plan", "runs_with_wal_frames_at_end", "large_schema_scenarios", "large_schema_runs_with_lru_evictions", "large_schema_reopens"] {
             rep.expect_nonzero(c);
         }
         let ps = passes(ctx);
@@ -1207,7 +1215,8 @@ impl Check for C42 {
         rep.count("database_executions", runs);
         rep.count("executions_spent_shrinking", shrink_runs);
         rep.count("runs_with_wal_frames_at_end", wf);
-        rep.count("configurations_covered", all_configs().len() as u64);
+        rep.bound("configurations_covered", json!(all_configs().len()));
+        rep.count("prepared_inserts_through_cached_plan", CACHED_PLAN_EXECS.with(|c| c.get()));
         rep.sample(|| json!({"variant": "pkidx", "ops": ["INS1", "PREP_23", "TXN_INS3"], "cfg": "wal=ON,synchronous=OFF,wal_checkpoint_threshold=1", "meaning": "CREATE t + index; INSERT 1; prepared INSERT of 2 then 3; BEGIN, INSERT 3, COMMIT (auto-checkpoint); observe — vs. the same under the default configuration"}));
     }
 
